@@ -434,7 +434,7 @@ def main_check(prop, spec, tier, seed, replay=None):
             return 2
     run = Run(prop, tier, seed, work)
     wall_limit = spec.get('wall_quick', 1500) if tier == 'quick' else spec.get('wall_thorough', 6 * 3600)
-    deadline = t0 + wall_limit
+    deadline = time.time() + wall_limit      # the watchdog starts after the build
     sem = threading.Semaphore(int(os.environ.get('VERIF_JOBS', '16')))
     threads = []
     for leg in legs:
